@@ -32,6 +32,7 @@ import (
 	"path"
 	"sync"
 	"time"
+	"unicode/utf8"
 )
 
 type (
@@ -173,6 +174,13 @@ func (ims *inmemService) getOrCreateJournal(tags string, create bool) (res strin
 			if tgs.IsEmpty() {
 				ims.lock.Unlock()
 				return "", tag.EmptySet, fmt.Errorf("at least one tag value is expected to define the source")
+			}
+
+			// the tag line is a key of the JSON object written to the index file: encoding/json would replace
+			// bytes that are not valid UTF-8, the key would change with the next restart
+			if create && !utf8.ValidString(string(tgs.Line())) {
+				ims.lock.Unlock()
+				return "", tag.EmptySet, fmt.Errorf("the tags %q are not valid UTF-8", tags)
 			}
 
 			if td2, ok := ims.tmap[tgs.Line()]; !ok {
